@@ -567,6 +567,10 @@ def generated_documents(ctx, g, pool, ndocs):
                 k = g.unknown_key()
                 items.append((k, TB.TaggedBlock(key=k, data=g.blob())))
             r.tagged_blocks = TB.TaggedBlocks(items)
+            if rng.random() < 0.6:
+                # the pascal name at the limits of its length byte, whatever blocks the record holds (the unicode name among them)
+                n = rng.choice([255, 255, 254, 1, 0])
+                r.name = "".join(rng.choice("abcXYZ 019_-") for _ in range(n))
         items = []
         for k in doc_keys:
             x = payload_for_key(g, pool, k, version, depth=2 if i % 3 == 0 else 1)
@@ -658,20 +662,22 @@ def run_blocks(ctx, g, pool, seen_key, fail_cls):
             ctx.disagree("typed block: the model driver rejects the request", {"value": _short(toks), "answer": a[:1]})
             continue
         if w[0] == "ok":
-            if a[0] != "ok" or a[1] != hx(w[1]):
+            # a broken correspondence never hides the property: the oracle below runs on the real writer's bytes in any case
+            bytes_ok = a[0] == "ok" and a[1] == hx(w[1])
+            if not bytes_ok:
                 ctx.disagree("typed block: TaggedBlock.write bytes != model enc",
                              {"key": key.decode("latin1"), "value": _short(toks), "version": v, "padding": pad,
                               "model": a[:2] if a[0] != "ok" else _short(a[1], 200), "py": hx(w[1])[:200]})
-                continue
-            if int(a[2]) != w[2]:
-                ctx.disagree("typed block: count returned by write != model count", {"value": _short(toks), "py": w[2], "model": a[2]})
-            if canon_floats(a[4]) != after:
-                ctx.disagree("typed block: object state after write != model refresh", {"value": _short(toks), "after": _short(after)})
+            else:
+                if int(a[2]) != w[2]:
+                    ctx.disagree("typed block: count returned by write != model count", {"value": _short(toks), "py": w[2], "model": a[2]})
+                if canon_floats(a[4]) != after:
+                    ctx.disagree("typed block: object state after write != model refresh", {"value": _short(toks), "after": _short(after)})
             try:
                 why = blk_excluded(t, v, pad)
             except Exception as e:  # noqa
                 why = "excluded-undecided:" + type(e).__name__
-            iswf = a[3] == "1"
+            iswf = (a[3] == "1") if bytes_ok else (why is None)
             if iswf != (why is None):
                 ctx.disagree("typed block: model WF disagrees with the harness's reading of the clauses",
                              {"key": key.decode("latin1"), "value": _short(toks), "model_wf": iswf, "harness": why})
@@ -808,14 +814,16 @@ def run_documents(ctx, cases, fail_cls, label):
             ctx.disagree("typed document: the model driver rejects the request", {"doc": c.get("name"), "answer": a[:1]})
             continue
         if w[0] == "ok":
-            if a[0] != "ok" or a[1] != hx(w[1]) or int(a[2]) != w[2]:
+            # a broken correspondence never hides the property: the oracle below runs on the real writer's bytes in any case; without
+            # the model's verdict a generated document counts as well formed (it is built that way), a fixture as it is
+            bytes_ok = a[0] == "ok" and a[1] == hx(w[1]) and int(a[2]) == w[2]
+            if not bytes_ok:
                 ctx.disagree("typed document: PSD.write bytes / count != model enc",
                              {"doc": c.get("name"), "pad": c["pad"], "model": a[:1], "py_len": len(w[1]),
                               "first_difference": first_diff(a[1], hx(w[1])) if a[0] == "ok" else None})
-                continue
-            if canon_floats(a[4]) != c["after"]:
+            elif canon_floats(a[4]) != c["after"]:
                 ctx.disagree("typed document: object state after write != model refresh", {"doc": c.get("name")})
-            c["iswf"] = a[3] == "1"
+            c["iswf"] = (a[3] == "1") if bytes_ok else True
             if c["kind"] == "generated" and not c["iswf"]:
                 ctx.disagree("typed document: the model's WF rejects a document the generator builds well formed (WF too strong)",
                              {"doc": c.get("name"), "tokens": _short(c["before"], 1500)})
